@@ -27,8 +27,11 @@ class FieldsV:
         self.has = {}
         self.tok = {}
         self.keys_order = None
+        self.closed = None     # set of field names of the rule's patterns: any other key is absent (closed world)
 
     def has_key(self, k):
+        if self.closed is not None and k not in self.closed:
+            return z3.BoolVal(False)
         if k not in self.has:
             self.has[k] = z3.Bool("%s.has[%s]" % (self.name, k))
             self.ex.inputs["%s.has[%s]" % (self.name, k)] = self.has[k]
@@ -353,6 +356,43 @@ def h_f64_mul_ref(ex, name, args, path, depth, caller):
     yield Outcome("return", path, ex.f_bin(op, deref(args[0]), deref(args[1])))
 
 
+def int_binop(ex, path, op, a, b, caller):
+    """outcomes of a checked integer operation (dev profile: overflow and zero divisors panic)"""
+    if op in ("div", "rem"):
+        z = path.add(b.t == 0)
+        if ex.feasible(z):
+            yield panic(z, "attempt to %s by zero" % ("divide" if op == "div" else "calculate the remainder with a divisor of zero"), caller.name)
+        path = path.add(b.t != 0)
+        if not ex.feasible(path):
+            return
+        q = ex.tdiv(a.t, b.t)
+        r = q if op == "div" else a.t - q * b.t
+    else:
+        r = {"add": a.t + b.t, "sub": a.t - b.t, "mul": a.t * b.t}[op]
+    ok = z3.And(r >= a.lo(), r <= a.hi())
+    bad = path.add(z3.Not(ok))
+    if ex.feasible(bad):
+        yield panic(bad, "attempt to %s with overflow" % op, caller.name)
+    good = path.add(ok)
+    if ex.feasible(good):
+        yield Outcome("return", good, IntV(r, a.bits, a.signed))
+
+
+def h_int_op_ref(ex, name, args, path, depth, caller):
+    op = name.split("::")[-1]
+    yield from int_binop(ex, path, op, deref(args[0]), deref(args[1]), caller)
+
+
+def h_int_op_assign(ex, name, args, path, depth, caller):
+    op = name.split("::")[-1].replace("_assign", "")
+    for o in int_binop(ex, path, op, cur(path, args[0]), deref(args[1]), caller):
+        if o.kind == "panic":
+            yield o
+            continue
+        p2, wr = writeback(o.path, args[0], o.value, "integer")
+        yield Outcome("return", p2, UNIT, writes=wr)
+
+
 def h_typeid_of(ex, name, args, path, depth, caller):
     m = re.search(r"of::<(.*)>$", name)
     yield Outcome("return", path, TypeIdV(last_seg(m.group(1))))
@@ -629,6 +669,8 @@ def install(ex):
     add(r"^(core::result::)?Result::<.*>::unwrap$", h_result_unwrap)
     add(r"^(core::|std::)?f64::<impl f64>::(is_infinite|is_nan)$", h_f64_pred)
     add(r"^(core::|std::)?f64::<impl f64>::(round|trunc|abs|floor|fract)$", h_f64_round)
+    add(r"^<(&)?(i8|i16|i32|i64|isize|u8|u16|u32|u64|usize) as (Mul|Add|Sub|Div|Rem)<(&)?(i8|i16|i32|i64|isize|u8|u16|u32|u64|usize)>>::(mul|add|sub|div|rem)$", h_int_op_ref)
+    add(r"^<(i8|i16|i32|i64|isize|u8|u16|u32|u64|usize) as (Mul|Add|Sub|Div|Rem)Assign<(&)?(i8|i16|i32|i64|isize|u8|u16|u32|u64|usize)>>::(mul|add|sub|div|rem)_assign$", h_int_op_assign)
     add(r"^<f64 as (Mul|Add|Sub|Div)<&f64>>::(mul|add|sub|div)$", h_f64_mul_ref)
     add(r"^<&f64 as (Mul|Add|Sub|Div)<(&)?f64>>::(mul|add|sub|div)$", h_f64_mul_ref)
     add(r"^TypeId::of::<.*>$", h_typeid_of)
@@ -1216,7 +1258,7 @@ def install_heap(ex):
     add(r"^<(core::result::)?Result<.*> as FromResidual<.*>>::from_residual$", h_result_from_residual)
     add(r"^(log::)?max_level$", h_log_max_level)
     add(r"^<log::Level as PartialOrd<LevelFilter>>::le$", h_log_le)
-    add(r"^<char as PartialEq>::(eq|ne)$", h_char_eq)
+    add(r"^<(&)?char as PartialEq(<(&)?char>)?>::(eq|ne)$", h_char_eq)
     add(r"^core::slice::<impl \[char\]>::contains$", h_slice_contains)
     add(r"^Arguments::<'_>::(from_str|new|new_const)(::<.*>)?$|^log::__private_api::\w+(::<.*>)?$", h_opaque)
 
@@ -1991,7 +2033,48 @@ def h_fmt_format(ex, name, args, path, depth, caller):
         for p, s in render_shortest(ex, path.add(v.t >= 0), v.t):
             yield Outcome("return", p, s)
         return
+    pieces = decode_template(a.template)
+    if pieces is not None and all(isinstance(x, FmtArgV) and x.kind == "display" and isinstance(x.v, StrV) for x in a.args) \
+            and sum(1 for q in pieces if q is None) == len(a.args):
+        out, it = StrV(""), iter(a.args)
+        for q in pieces:
+            out = str_concat(out, StrV(q) if q is not None else next(it).v)
+        yield Outcome("return", path, out)
+        return
     yield Outcome("return", path, OpaqueV("formatted"))
+
+
+def decode_template(t):
+    """format_args! template bytes of the plain form: <len><literal bytes> | 0xC0 (next argument, default format) | 0x00 end.
+    Returns a list of literal strings and None placeholders, or None for any other form."""
+    if not isinstance(t, BytesV):
+        return None
+    b, i, out = t.b, 0, []
+    while i < len(b):
+        c = b[i]
+        if c == 0:
+            return out if i == len(b) - 1 else None
+        if c == 0xC0:
+            out.append(None)
+            i += 1
+        elif c < 0x80:
+            try:
+                out.append(b[i + 1:i + 1 + c].decode("utf-8"))
+            except UnicodeError:
+                return None
+            i += 1 + c
+        else:
+            return None
+    return None
+
+
+def h_option_map_or(ex, name, args, path, depth, caller):
+    f = closure_fn(ex, name)
+    for p, is_some, payload in option_cases(ex, path, args[0]):
+        if not is_some:
+            yield Outcome("return", p, args[1])
+        else:
+            yield from ex.run(f, [args[2], payload], p, depth + 1)
 
 
 def h_f64_to_string(ex, name, args, path, depth, caller):
@@ -1999,6 +2082,22 @@ def h_f64_to_string(ex, name, args, path, depth, caller):
     ex.fmt_log.append(("shortest", v.t, None))
     for p, s in render_shortest(ex, path.add(v.t >= 0), v.t):
         yield Outcome("return", p, s)
+
+
+def h_int_to_string(ex, name, args, path, depth, caller):
+    """<uN/iN as ToString>::to_string: the decimal digits of the integer (sign in front)"""
+    v = deref(args[0])
+    a = z3.If(v.t >= 0, v.t, -v.t)
+    maxd = len(str(v.hi()))
+    for neg in ((False, True) if v.signed else (False,)):
+        ps = path.add(v.t < 0 if neg else v.t >= 0)
+        if not ex.feasible(ps):
+            continue
+        for l in range(1, maxd + 1):
+            p = ps.add(int_digit_range(a, l, 0))
+            if not ex.feasible(p):
+                continue
+            yield Outcome("return", p, DecStrV(([("c", "-")] if neg else []) + digits_of(a, l)))
 
 
 def h_identity0(ex, name, args, path, depth, caller):
@@ -2096,6 +2195,7 @@ def install_fmt(ex):
     add(r"^alloc::fmt::format$", h_fmt_format)
     add(r"^must_use::<.*>$", h_identity0)
     add(r"^<f64 as ToString>::to_string$", h_f64_to_string)
+    add(r"^<(u8|u16|u32|u64|usize|i8|i16|i32|i64|isize) as ToString>::to_string$", h_int_to_string)
     add(r"^(alloc::string::)?String::len$|^core::str::<impl str>::len$", h_decstr_len)
     add(r"^core::str::<impl str>::find::<char>$", h_str_find_char)
     add(r"^core::str::<impl str>::chars$", h_str_chars)
@@ -2104,3 +2204,166 @@ def install_fmt(ex):
     add(r"^<Skip<Chars<'_>> as Iterator>::all::<.*>$", h_chars_all)
     add(r"^(alloc::string::)?String::push$", h_string_push_char)
     add(r"^core::option::Option::<.*>::unwrap_or$", h_option_unwrap_or)
+    add(r"^core::option::Option::<.*>::map_or::<.*>$", h_option_map_or)
+
+
+# ------------------------------------------------------------------ the clock-time tokeniser's kernel (C11): one regex match as input
+class TodayV:
+    """Utc::today(): a Date<Utc> with a symbolic day number and its civil triple"""
+    def __init__(self, days, off=None):
+        self.days, self.off = days, off
+
+
+def today_parts(ex):
+    if not hasattr(ex, "_today"):
+        d, y, m, dd = z3.Int("today.days"), z3.Int("today.year"), z3.Int("today.month"), z3.Int("today.day")
+        for n_, t_ in (("today.days", d), ("today.year", y), ("today.month", m), ("today.day", dd)):
+            ex.inputs[n_] = t_
+        # the civil triple of the day number (chrono's Datelike accessors; the model of days_from_civil is validated
+        # against the real chrono by the K harness chrono_model_ymd)
+        ex.domain.append(z3.And(y >= 1971, y <= 9998, valid_ymd(y, m, dd), d == days_from_civil(y, m, dd)))
+        ex._today = (d, y, m, dd)
+    return ex._today
+
+
+def h_utc_today(ex, name, args, path, depth, caller):
+    yield Outcome("return", path, TodayV(today_parts(ex)[0]))
+
+
+def h_today_naive(ex, name, args, path, depth, caller):
+    yield Outcome("return", path, DateV(deref(args[0]).days))
+
+
+def h_datelike_today(ex, name, args, path, depth, caller):
+    a = deref(args[0])
+    d, y, m, dd = today_parts(ex)
+    if not (isinstance(a, (DateV, TodayV)) and a.days.eq(d)):
+        raise Unsupported("Datelike accessor %s on a date other than today (needs civil-from-days)" % name)
+    fn = name.split("::")[-1]
+    if fn == "year":
+        yield Outcome("return", path, IntV(y, 32, True))
+    else:
+        yield Outcome("return", path, IntV(m if fn == "month" else dd, 32, False))
+
+
+def h_tz_ymd(ex, name, args, path, depth, caller):
+    tz = deref(args[0])
+    y, m, d = deref(args[1]).t, deref(args[2]).t, deref(args[3]).t
+    off = tz.secs if isinstance(tz, OffsetV) else z3.IntVal(0)
+    ok = valid_ymd(y, m, d)
+    bad = path.add(z3.Not(ok))
+    if ex.feasible(bad):
+        yield panic(bad, "TimeZone::ymd: invalid date", caller.name)
+    okp = path.add(ok)
+    if ex.feasible(okp):
+        yield Outcome("return", okp, TodayV(days_from_civil(y, m, d), off))
+
+
+def h_date_tz_and_hms(ex, name, args, path, depth, caller):
+    d = deref(args[0])
+    off = d.off if d.off is not None else z3.IntVal(0)
+    yield from hms_checked(ex, path, deref(args[1]), deref(args[2]), deref(args[3]), caller, "Date::and_hms",
+                           lambda sod: ZonedV(dt_from_total(d.days * 86400 + sod - off), off))
+
+
+def h_regex_captures_iter(ex, name, args, path, depth, caller):
+    """one match of the regex in the line (bound of the spec): its named groups are symbolic inputs"""
+    cap = CapturesV(ex)
+    ex._captures = cap
+    yield Outcome("return", path, IterV([cap], 0, False, True))
+
+
+def h_captures_get(ex, name, args, path, depth, caller):
+    cap = deref(args[0])
+    yield Outcome("return", path, some(StrV(z3.String("%s.text[0]" % cap.name))))
+
+
+def h_match_pos(ex, name, args, path, depth, caller):
+    m = deref(args[0])
+    f = z3.Function("match." + name.split("::")[-1], z3.StringSort(), z3.IntSort())(m.term())
+    ex.domain.append(z3.And(f >= 0, f < 1000))
+    yield Outcome("return", path, IntV(f, 64, False))
+
+
+def h_str_lower_sym(ex, name, args, path, depth, caller):
+    v = deref(args[0])
+    if isinstance(v, StrV) and v.is_concrete():
+        yield Outcome("return", path, StrV(v.t.lower() if name.endswith("to_lowercase") else v.t.upper()))
+    else:
+        yield Outcome("return", path, StrV(z3.Function("str." + name.split("::")[-1], z3.StringSort(), z3.StringSort())(v.term())))
+
+
+def h_time_addsub_td(ex, name, args, path, depth, caller):
+    """NaiveTime +- TimeDelta wraps around midnight (the day carry is dropped: chrono's documented behaviour)"""
+    a, d = deref(args[0]), deref(args[1])
+    t = a.secs - d.secs if name.endswith("::sub") else a.secs + d.secs
+    yield Outcome("return", path, TimeV(t % 86400))
+
+
+def install_time_tokeniser(ex):
+    def add(rx, fn):
+        ex.handlers.insert(0, (re.compile(rx), fn))
+
+    add(r"^(chrono::)?Utc::today$", h_utc_today)
+    add(r"^<(chrono::)?NaiveTime as (Add|Sub)<(chrono::)?(TimeDelta|Duration)>>::(add|sub)$", h_time_addsub_td)
+    add(r"^(chrono::)?Date::<.*>::naive_utc$", h_today_naive)
+    add(r"^<(chrono::)?NaiveDate as Datelike>::(year|month|day)$", h_datelike_today)
+    add(r"^<(FixedOffset|Utc) as TimeZone>::ymd$", h_tz_ymd)
+    add(r"^(chrono::)?Date::<.*>::and_hms$", h_date_tz_and_hms)
+    add(r"^regex::Regex::captures_iter$", h_regex_captures_iter)
+    add(r"^<regex::CaptureMatches<.*> as Iterator>::next$|^<CaptureMatches<.*> as Iterator>::next$", h_iter_next)
+    add(r"^<regex::CaptureMatches<.*> as IntoIterator>::into_iter$|^<CaptureMatches<.*> as IntoIterator>::into_iter$", h_identity_keep)
+    add(r"^regex::Captures::<'_>::get$", h_captures_get)
+    add(r"^regex::Match::<'_>::(start|end)$", h_match_pos)
+    add(r"^core::str::<impl str>::(to_lowercase|to_uppercase)$|^alloc::str::<impl str>::(to_lowercase|to_uppercase)$", h_str_lower_sym)
+    add(r"^<(str|alloc::string::String|String) as ToOwned>::to_owned$", h_to_string)
+
+
+# ------------------------------------------------------------------ pattern matching of the rule engine (phrase specs)
+def h_slice_contains_str(ex, name, args, path, depth, caller):
+    v = cur(path, args[0])
+    x = deref(args[1])
+    items = v.items if isinstance(v, VecV) else v.f
+    conds = []
+    for i in items:
+        i = deref(i)
+        if isinstance(i, StrV) and isinstance(x, StrV) and i.is_concrete() and x.is_concrete():
+            conds.append(z3.BoolVal(i.t == x.t))
+        else:
+            conds.append(i.term() == x.term())
+    yield Outcome("return", path, z3.simplify(z3.Or(conds)) if conds else z3.BoolVal(False))
+
+
+def h_iter_any(ex, name, args, path, depth, caller):
+    it = deref(args[0])
+    if not isinstance(it, IterV):
+        raise Unsupported("Iterator::any on %r" % (it,))
+    f = closure_fn(ex, name)
+    states = [(path, [])]
+    for el in it.items[it.idx:]:
+        nxt = []
+        for p, acc in states:
+            for o in ex.run(f, [args[1], el if it.owned else RefV(el)], p, depth + 1):
+                if o.kind == "panic":
+                    yield o
+                else:
+                    nxt.append((o.path, acc + [o.value]))
+        states = nxt
+    for p, acc in states:
+        yield Outcome("return", p, z3.simplify(z3.Or(acc)) if acc else z3.BoolVal(False))
+
+
+def h_option_as_ref(ex, name, args, path, depth, caller):
+    for p, is_some, payload in option_cases(ex, path, args[0]):
+        yield Outcome("return", p, some(RefV(payload) if not isinstance(payload, RefV) else payload) if is_some else NONE)
+
+
+def install_phrases(ex):
+    def add(rx, fn):
+        ex.handlers.insert(0, (re.compile(rx), fn))
+
+    add(r"^core::slice::<impl \[(alloc::string::)?String\]>::contains$", h_slice_contains_str)
+    add(r"^<core::slice::Iter<'_, (alloc::string::)?String> as Iterator>::any::<.*>$", h_iter_any)
+    add(r"^core::option::Option::<.*>::map_or::<.*>$", h_option_map_or)
+    add(r"^core::str::<impl str>::(to_lowercase|to_uppercase)$|^alloc::str::<impl str>::(to_lowercase|to_uppercase)$", h_str_lower_sym)
+    add(r"^core::fmt::rt::Argument::<'_>::new_\\w+::<.*>$", h_opaque)
